@@ -166,7 +166,7 @@ class Ctx:
         return ok
 
     # ---- path helpers ----------------------------------------------------------------------------
-    def check_safety(self, paths, requires, prefix, replay=None, kinds=("div", "shape", "mask", "index")):
+    def check_safety(self, paths, requires, prefix, replay=None, kinds=("div", "shape", "mask", "index", "nan")):
         """safety obligations collected by the evaluator on all paths"""
         groups = {}
         for p in paths:
